@@ -17,6 +17,7 @@ INVARIANT PositiveFinite
 INVARIANT WithinControlRange
 INVARIANT ConstantWhenControlsEqual
 INVARIANT NPointRejectedIff
+INVARIANT StrictImpliesInvalid
 INVARIANT GuillotListedRejected
 INVARIANT GuillotPhysicalAccepted
 INVARIANT FitsInv
